@@ -94,25 +94,31 @@ def gcirc(ra1, dec1, ra2, dec2, units=2):
     separations.  See:
     https://en.wikipedia.org/wiki/Great-circle_distance
     """
+    #
+    # The coordinate differences are taken in the units of the input, where
+    # the subtraction of nearby values is exact, and only then converted to
+    # radians.  Converting first would round each coordinate to about
+    # 1e-16 rad, which is a large fraction of a sub-milliarcsecond separation.
+    #
     if units == 0:
-        rarad1 = ra1
         dcrad1 = dec1
-        rarad2 = ra2
         dcrad2 = dec2
+        deldec = dec2 - dec1
+        delra = ra2 - ra1
     elif units == 1:
-        rarad1 = np.deg2rad(15.0*ra1)
         dcrad1 = np.deg2rad(dec1)
-        rarad2 = np.deg2rad(15.0*ra2)
         dcrad2 = np.deg2rad(dec2)
+        deldec = np.deg2rad(dec2 - dec1)
+        delra = np.deg2rad(15.0*(ra2 - ra1))
     elif units == 2:
-        rarad1 = np.deg2rad(ra1)
         dcrad1 = np.deg2rad(dec1)
-        rarad2 = np.deg2rad(ra2)
         dcrad2 = np.deg2rad(dec2)
+        deldec = np.deg2rad(dec2 - dec1)
+        delra = np.deg2rad(ra2 - ra1)
     else:
         raise ValueError('units must be 0, 1 or 2!')
-    deldec2 = (dcrad2-dcrad1)/2.0
-    delra2 = (rarad2-rarad1)/2.0
+    deldec2 = deldec/2.0
+    delra2 = delra/2.0
     sindis = np.sqrt(np.sin(deldec2)*np.sin(deldec2) +
                      np.cos(dcrad1)*np.cos(dcrad2)*np.sin(delra2)*np.sin(delra2))
     dis = 2.0*np.arcsin(sindis)
